@@ -717,6 +717,10 @@ pub fn worker_c15(ctx: &WorkerCtx) -> WorkerOut {
             if q && sp.traces[j.trace as usize].len() >= 3 && i % 4 != 0 {
                 return None;
             }
+            // thorough: traces of up to three packets with every system, four-packet traces with every third one
+            if !q && sp.traces[j.trace as usize].len() >= 4 && i % 3 != 0 {
+                return None;
+            }
             let mut j = j;
             if i % 7 == 0 {
                 j.style = 1 + (i / 7 % 3) as u8;
